@@ -78,8 +78,12 @@ RetObjIffRet(h, k) == k.done => /\ (Has(h, "app", "method_return_object") <=> k.
 ExcObjIffFault(h, k) == k.done => /\ (Has(h, "app", "method_exception_object") <=> k.fault)
                                   /\ Count(h, "app", "method_exception_object") <= 1
 \* "followed by the matching document and string events in that order"
+Redirected(k) == "redirect" \in DOMAIN k /\ k.redirect
+NoDocStr(h) == /\ ~Has(h, "app", "method_return_document") /\ ~Has(h, "app", "method_return_string")
+               /\ ~Has(h, "app", "method_exception_document") /\ ~Has(h, "app", "method_exception_string")
 DocStrMatch(h, k) == k.done =>
-  IF ~k.fault
+  IF Redirected(k) THEN NoDocStr(h)       \* a redirect is neither a result nor a fault: no document is built
+  ELSE IF ~k.fault
     THEN /\ Count(h, "app", "method_return_document") = 1
          /\ Count(h, "app", "method_return_string") = 1
          /\ Before(h, <<"app", "method_return_object">>, <<"app", "method_return_document">>)
@@ -139,7 +143,7 @@ NoFnOnInFault(h, k) == k.infault => ~Has(h, "fn", "call")
 \* "a request that is merely malformed ... Client family ... never a Server fault"
 BadReqIsClient(h, k) == (k.done /\ k.malformed) => (k.fault /\ IsClientCode(k.code) /\ ~Has(h, "fn", "call"))
 StatusTable(h, k) == (k.done /\ k.tr = "wsgi" /\ k.statusKnown /\ k.rpc) =>
-     /\ k.status = Status(k.soap, k.cls, k.code)
+     /\ k.status = (IF Redirected(k) THEN 302 ELSE Status(k.soap, k.cls, k.code))
      /\ \A i \in Idx(h) : h[i][1] = "sr" => h[i][2] = k.status
 \* C10, for a request of unknown validity (fuzzing): either a normal response, or a
 \* well-formed Client-family fault (4xx over HTTP for non-SOAP) without user code run
